@@ -661,6 +661,84 @@ rv_body = func_body(jmemmgr, "realize_virt_arrays") or sys.exit("jmemmgr.c: real
 if not re.search(r"jpeg_mem_available\s*\([^;]*mem->total_space_allocated\s*\)", rv_body):
     sys.exit("realize_virt_arrays no longer passes total_space_allocated to jpeg_mem_available")
 
+# marker copying: which marker classes jcopy_markers_setup() makes the decompressor save for an option, and which
+# classes jcopy_markers_execute() lets through for it (classes: COM, APP2, any other APPn)
+transupp = preprocess(strip_comments(rd("src/transupp.c")), dict(BASE_DEFS))
+tu_h = strip_comments(rd("src/transupp.h"))
+em_ = re.search(r"typedef\s+enum\s*\{([^}]*)\}\s*JCOPY_OPTION", tu_h)
+if not em_:
+    sys.exit("transupp.h: JCOPY_OPTION not found")
+copy_opts = [x.strip() for x in em_.group(1).split(",") if x.strip()]
+if copy_opts != ["JCOPYOPT_NONE", "JCOPYOPT_COMMENTS", "JCOPYOPT_ALL", "JCOPYOPT_ALL_EXCEPT_ICC", "JCOPYOPT_ICC"]:
+    sys.exit("transupp.h: JCOPY_OPTION enumerators changed: %s" % copy_opts)
+su = func_body(transupp, "jcopy_markers_setup") or sys.exit("jcopy_markers_setup not found")
+msu = re.search(r"if\s*\((?P<c1>[^{]*?)\)\s*\{\s*jpeg_save_markers\s*\(\s*srcinfo\s*,\s*JPEG_COM\s*,[^;]*;\s*\}\s*"
+                r"if\s*\((?P<c2>[^{]*?)\)\s*\{\s*for\s*\(\s*m\s*=\s*0\s*;\s*m\s*<\s*16\s*;\s*m\+\+\s*\)\s*\{\s*"
+                r"if\s*\((?P<c3>[^{;]*?)\)\s*continue\s*;\s*jpeg_save_markers\s*\(\s*srcinfo\s*,\s*JPEG_APP0\s*\+\s*m\s*,[^;]*;\s*\}\s*\}\s*"
+                r"if\s*\((?P<c4>[^{]*?)\)\s*\{\s*jpeg_save_markers\s*\(\s*srcinfo\s*,\s*JPEG_APP0\s*\+\s*2\s*,", su)
+if not msu:
+    sys.exit("jcopy_markers_setup: expected statement shape not found")
+ex = func_body(transupp, "jcopy_markers_execute") or sys.exit("jcopy_markers_execute not found")
+mex = re.search(r"if\s*\(\s*option\s*==\s*JCOPYOPT_NONE\s*\)\s*continue\s*;(?P<rest>(\s*else\s+if\s*\(\s*option\s*==\s*\w+\s*\)\s*\{\s*"
+                r"if\s*\([^{;]*\)\s*continue\s*;\s*\})+)", ex)
+if not mex:
+    sys.exit("jcopy_markers_execute: option filter chain not found")
+chain = re.findall(r"else\s+if\s*\(\s*option\s*==\s*(\w+)\s*\)\s*\{\s*if\s*\(([^{;]*)\)\s*continue\s*;\s*\}", mex.group("rest"))
+
+
+def cev(expr, env):
+    e = expr
+    for k, v in env.items():
+        e = re.sub(r"\b%s\b" % re.escape(k), str(v), e)
+    e = e.replace("marker->marker", str(env["__marker"]))
+    e = e.replace("&&", " and ").replace("||", " or ")
+    if re.search(r"[A-Za-z_]", e.replace("and", "").replace("or", "")):
+        sys.exit("cannot evaluate C condition: " + expr)
+    return bool(eval(e))
+
+
+COM, APP0 = 0xFE, 0xE0
+copy_rows = []
+for ov, oname in enumerate(copy_opts):
+    env = {n: i for i, n in enumerate(copy_opts)}
+    env.update({"option": ov, "JPEG_COM": COM, "JPEG_APP0": APP0, "__marker": 0})
+    saves_com = cev(msu.group("c1"), env)
+    saves_app = []
+    for m_ in range(16):
+        env["m"] = m_
+        sv = cev(msu.group("c2"), env) and not cev(msu.group("c3"), env)
+        if m_ == 2 and cev(msu.group("c4"), env):
+            sv = True
+        saves_app.append(sv)
+    env.pop("m", None)
+    passes = {}
+    for mk_, mv in (("com", COM), ("app2", APP0 + 2), ("app1", APP0 + 1)):
+        env["__marker"] = mv
+        ok = ov != 0
+        for on, cond in chain:
+            if env[on] == ov and cev(cond, env):
+                ok = False
+        passes[mk_] = ok
+    others = [saves_app[i] for i in range(16) if i != 2]
+    if any(others) != all(others):
+        sys.exit("jcopy_markers_setup: APPn (n != 2) are not treated alike for option %s" % oname)
+    copy_rows.append((ov, saves_com, saves_app[2], others[0], passes["com"], passes["app2"], passes["app1"]))
+
+# processFlags: which parameter member every legacy flag lands in (order of the assignments)
+pf_body = static_body(tj_raw, "processFlags")
+pf_assign = []
+for mm_ in re.finditer(r"this->([\w.]+)\s*=\s*([^;]*);", pf_body):
+    fld_, rhs = mm_.group(1), norm(mm_.group(2))
+    fm = re.findall(r"TJFLAG_(\w+)", rhs)
+    pf_assign.append((fld_, fm[0] if fm else rhs))
+want = [("bottomUp", "BOTTOMUP"), ("fastUpsample", "FASTUPSAMPLE"), ("noRealloc", "NOREALLOC"), ("fastDCT", "FALSE"), ("fastDCT", "TRUE"),
+        ("fastDCT", "FASTDCT"), ("jerr.stopOnWarning", "STOPONWARNING"), ("progressive", "PROGRESSIVE"), ("scanLimit", "500")]
+if pf_assign != want:
+    sys.exit("processFlags: assignments changed: %s" % pf_assign)
+if not re.search(r"if\s*\(\s*this->quality\s*>=\s*96\s*\|\|\s*flags\s*&\s*TJFLAG_ACCURATEDCT\s*\)\s*this->fastDCT\s*=\s*FALSE", pf_body) or \
+        not re.search(r"if\s*\(\s*flags\s*&\s*TJFLAG_LIMITSCANS\s*\)\s*this->scanLimit\s*=\s*500", pf_body):
+    sys.exit("processFlags: fastDCT / scanLimit conditions changed")
+
 # global_state values
 jpegint = rd("src/jpegint.h")
 gstates = []
@@ -775,5 +853,10 @@ print("Definition free_pool_subtracts_large : bool := %s." % str(fp_sub_large).l
 print("Definition free_pool_subtracts_small : bool := %s." % str(fp_sub_small).lower())
 print("(* jpeg_read_header: a tables-only datastream ends in jpeg_abort() (which also drops the saved markers) *)")
 print("Definition read_header_tables_only_aborts : bool := %s." % str(tables_only_aborts).lower())
+print("(* JCOPY_OPTION value -> (jcopy_markers_setup saves COM, APP2, other APPn ; jcopy_markers_execute passes COM, APP2, other APPn) *)")
+print("Definition copy_option_table : list (Z * ((bool * bool * bool) * (bool * bool * bool))) :=\n  %s.\n" % coq_list(
+    ["(%d, ((%s, %s, %s), (%s, %s, %s)))" % ((r[0],) + tuple(str(x).lower() for x in r[1:])) for r in copy_rows]))
+print("(* processFlags(): parameter members assigned, in order (compression variant: fastDCT twice, by the quality test) *)")
+print("Definition process_flags_fields : list string :=\n  %s.\n" % coq_list([qs(f) for f, _ in pf_assign if not (f == "fastDCT" and _ == "FASTDCT")]))
 print("(* tj3Compress*: setCompDefaults is called before jpeg_mem_dest_tj *)")
 print("Definition compress_defaults_before_dest : bool := %s." % str(comp_defaults_before_dest).lower())
